@@ -6,7 +6,7 @@ CONSTANTS
   MaxC = 2
   MaxB = 1
   MaxNodes = 3
-  L2Forms = {"conj-il", "disj-il", "must-i-not-l", "must-l-not-i", "conj-cc"}
+  L2Forms = {"conj-il", "must-i-not-l", "conj-cc"}
   Ordered = FALSE
   Classes = {"core"}
   WithMin = FALSE
